@@ -42,7 +42,10 @@ def one_case(rng, tier):
     g = aprogs.AGen(rng, max_nodes=7)
     prog = g.program()
     prods = g.producers(prog, max_total=20)
-    return {'prog': prog, 'producers': prods, 'awaiting': rng.random() < 0.7}
+    case = {'prog': prog, 'producers': prods, 'awaiting': rng.random() < 0.7}
+    if rng.random() < 0.2:
+        case['t0'] = 1.7e9          # a clock that reads like time.time(), not like a stopwatch
+    return case
 
 
 def check_case(case, counters, sets):
